@@ -991,6 +991,82 @@ fn monitor_gains(s: &mut Session, r: &mut Rng, emit: bool) {
 	}
 }
 
+
+/// Pick-up order (C02 theorem `pickup_order_users_first`, here for listeners): the caller creates a listener and
+/// then a spatial track that names it, in the MIDDLE of `Renderer::on_start_processing` (hook run from a probe
+/// sound's / effect's `on_start_processing` on a live parent track).  A spatial track that is live (its sound is
+/// asked for frames) while its listener exists — created before it, handle alive — must never render a callback of
+/// silence: "silent" is only for a listener that does not exist.
+fn pickup_order_listener(s: &mut Session) {
+	use crate::inject::*;
+	use kira::listener::ListenerHandle;
+	use kira::track::{SpatialTrackHandle, TrackHandle};
+	use std::sync::atomic::{AtomicUsize, Ordering};
+	use std::sync::{Arc, Mutex};
+	#[derive(Default)]
+	struct Keep {
+		parents: Vec<TrackHandle>,
+		spatial: Vec<SpatialTrackHandle>,
+		listeners: Vec<ListenerHandle>,
+	}
+	let points = ["a probe sound on the parent track (before the parent drains its sub-tracks)", "an effect on the parent track (after it)"];
+	for (pi, point) in points.iter().enumerate() {
+		for b in [1usize, 4, 8] {
+			let hook = Hook::default();
+			let (m, r) = shared_manager(1000, b, kira::track::MainTrackBuilder::new());
+			let keep: Arc<Mutex<Keep>> = Arc::default();
+			let mut parent = {
+				let tb = if pi == 1 { TrackBuilder::new().with_effect(HookFxBuilder(hook.clone())) } else { TrackBuilder::new() };
+				m.lock().unwrap().add_sub_track(tb).unwrap()
+			};
+			if pi == 0 {
+				parent.play(HookSound(hook.clone())).unwrap();
+			}
+			let _ = callback(&r, b, 2);
+			let _ = callback(&r, b, 2);
+			let asked = Arc::new(AtomicUsize::new(0));
+			let parent = Arc::new(Mutex::new(parent));
+			*hook.lock().unwrap() = Some(Box::new({
+				let m = m.clone();
+				let keep = keep.clone();
+				let parent = parent.clone();
+				let asked = asked.clone();
+				move || {
+					let mut m = m.lock().unwrap();
+					let mut k = keep.lock().unwrap();
+					let l = m.add_listener(Vec3::ZERO, Quat::IDENTITY).unwrap();
+					let mut t = parent.lock().unwrap().add_spatial_sub_track(l.id(), Vec3::new(1.0, 0.0, 0.0), SpatialTrackBuilder::new()).unwrap();
+					t.play(CountingDc(0.25, asked.clone())).unwrap();
+					k.listeners.push(l);
+					k.spatial.push(t);
+				}
+			}));
+			let desc = format!("internal buffer {b}; in a callback's on_start_processing, from {point}: add_listener L; parent.add_spatial_sub_track(listener L, 1 unit away); play(constant 0.25); then 5 callbacks of {b} frames");
+			let mut heard = false;
+			let mut bad = None;
+			for n in 0..5 {
+				let before = asked.load(Ordering::SeqCst);
+				let out = callback(&r, b, 2);
+				let got = asked.load(Ordering::SeqCst) - before;
+				let nonzero = out.iter().any(|x| *x != 0.0);
+				if got > 0 && !nonzero && bad.is_none() {
+					bad = Some(format!("callback {n}: the spatial track's sound was asked for {got} frames but the callback is silent although its listener was created before it and is alive"));
+				}
+				heard |= nonzero;
+			}
+			s.eval_only("pickup_order_listener");
+			if hook.lock().unwrap().is_some() {
+				s.fail(desc.clone(), "the hook never ran".into(), None);
+			} else if let Some(w) = bad {
+				s.fail(desc.clone(), w, None);
+			} else if !heard {
+				s.fail(desc.clone(), "the spatial track never became audible".into(), None);
+			}
+			keep.lock().unwrap().parents.clear();
+		}
+	}
+}
+
 pub fn run(args: &Args) {
 	let mut rng = Rng::new(args.seed ^ 0xC15);
 	let n: u64 = (if args.thorough { 6000 } else { 420 }) * args.budget_mul;
@@ -1117,5 +1193,6 @@ pub fn run(args: &Args) {
 			s.fail("powf(10, x) sweep over [-3, 0]".into(), format!("{bad} violations of the oracle hypotheses (monotone, in [0, 1], 1 at zero)"), None);
 		}
 	}
+	pickup_order_listener(&mut s);
 	s.finish();
 }
